@@ -113,3 +113,16 @@ def replay(contract, inputs):
     verdicts, pre_ok = evaluate_contract(contract, inputs, observed, next_id)
     return {'observed': {k: observed[k] for k in observed if k != 'objects'}, 'post': verdicts, 'pre': pre_ok,
             'reproduced': any(v is False for v in verdicts.values()) and all(v is not False for v in pre_ok.values())}
+
+
+def run_witness(code, timeout=60):
+    """runs a fixed native witness snippet against the current tree; returns its `result` dict"""
+    p = subprocess.run([NATIVE_PY, DRIVER], input=json.dumps({'native_code': code}), capture_output=True, text=True,
+                       timeout=timeout,
+                       env={**os.environ, 'PYTHONPATH': os.path.join(os.environ.get('PYVC_REPO', '/repo'), 'src')})
+    if p.returncode != 0:
+        return {'error': p.stderr[-1500:]}
+    try:
+        return json.loads(p.stdout)
+    except ValueError:
+        return {'error': p.stdout[-500:]}
